@@ -13,12 +13,12 @@ import (
 
 func c17Special(p *Program, run *CheckRun) {
 	allowed := map[string]string{
-		"newScanner":                            "line splitter proved prefix-stable (harness splitStable)",
-		"readNBytes":                            "block reader proved against the io.Reader contract",
-		"ReadFromSSAWithOptions":                "forwards to a reader function checked here",
-		"bufio.NewScanner":                      "assumed: token sequence is a function of the bytes for a prefix-stable split function",
-		"io.ReadFull":                           "assumed extern contract",
-		"encoding/xml.NewDecoder":               "assumed delivery-independent",
+		"newScanner":              "line splitter proved prefix-stable (harness splitStable)",
+		"readNBytes":              "block reader proved against the io.Reader contract",
+		"ReadFromSSAWithOptions":  "forwards to a reader function checked here",
+		"bufio.NewScanner":        "assumed: token sequence is a function of the bytes for a prefix-stable split function",
+		"io.ReadFull":             "assumed extern contract",
+		"encoding/xml.NewDecoder": "assumed delivery-independent",
 		"github.com/asticode/go-astits.NewDemuxer": "assumed delivery-independent",
 	}
 	var keys []string
